@@ -286,10 +286,11 @@ structure Kid where
   id : String := ""        -- the parsed DID URL as string
   deriving DecidableEq, Repr, Inhabited
 
-def resolvePublicKey1 (maxDepth : Nat) (s : Store) (kid : Kid) (rm : Option ResolveMeta) : Res Key :=
+/-- `resolvePublicKey(didResolver, kid, metadata)`; `res` is `didResolver.Resolve(·, &metadata)` -/
+def resolvePublicKey1 (res : Option ResolveMeta → String → Res Doc) (kid : Kid) (rm : Option ResolveMeta) : Res Key :=
   if !kid.parseOK then .err eInvalidKid
   else
-    match resolverResolve maxDepth s rm kid.holder with
+    match res rm kid.holder with
     | .ok doc =>
       match (doc.f .vm).find? (fun e => e.id == kid.id) with
       | none => .err eKeyNotFound
@@ -301,14 +302,23 @@ def resolvePublicKey1 (maxDepth : Nat) (s : Store) (kid : Kid) (rm : Option Reso
     | .err e => .err e
     | .panic x => .panic x
 
-/-- `SourceTXKeyResolver.ResolvePublicKey(kid, sourceTransactionsRefs)` -/
-def resolvePublicKey (maxDepth : Nat) (s : Store) (kid : Kid) : List Nat → Res Key
+/-- `SourceTXKeyResolver{Resolver: r}.ResolvePublicKey(kid, sourceTransactionsRefs)` -/
+def resolvePublicKeyWith (res : Option ResolveMeta → String → Res Doc) (kid : Kid) : List Nat → Res Key
   | [] => .err eNotFound
   | h :: hs =>
-    match resolvePublicKey1 maxDepth s kid (some { sourceTx := some h }) with
+    match resolvePublicKey1 res kid (some { sourceTx := some h }) with
     | .ok k => .ok k
-    | .err e => if e = eNotFound then resolvePublicKey maxDepth s kid hs else .err e
+    | .err e => if e = eNotFound then resolvePublicKeyWith res kid hs else .err e
     | .panic x => .panic x
+
+/-- the ambassador's key resolver (`NewAmbassador`: `dag.SourceTXKeyResolver{Resolver: didnuts.Resolver{Store}}`) -/
+def resolvePublicKey (maxDepth : Nat) (s : Store) (kid : Kid) (prevs : List Nat) : Res Key :=
+  resolvePublicKeyWith (resolverResolve maxDepth s) kid prevs
+
+/-- the DAG signature verifier's key resolver (`Network.Configure`: `dag.SourceTXKeyResolver{Resolver: n.didStore}` —
+    the store itself, no controller check) -/
+def resolvePublicKeyStore (s : Store) (kid : Kid) (prevs : List Nat) : Res Key :=
+  resolvePublicKeyWith (storeDoc s) kid prevs
 
 /-! ### transactions -/
 
@@ -327,11 +337,11 @@ structure Tx where
   deriving Repr, Inhabited
 
 /-- `NewTransactionSignatureVerifier`: the signature verifies iff the key used for verification is the signer's -/
-def verifySig (maxDepth : Nat) (s : Store) (tx : Tx) : Res Unit :=
+def verifySig (s : Store) (tx : Tx) : Res Unit :=
   match tx.embedded with
   | some k => if k = tx.signer then .ok () else .err "sig:invalid"
   | none =>
-    match resolvePublicKey maxDepth s tx.kid tx.prevs with
+    match resolvePublicKeyStore s tx.kid tx.prevs with
     | .ok k => if k = tx.signer then .ok () else .err "sig:invalid"
     | .err e => .err ("sig:key:" ++ e)
     | .panic x => .panic x
@@ -452,7 +462,7 @@ def callback (c : Cfg) (s : Store) (tx : Tx) (pd : Option NDoc) : Res Store :=
 
 /-- what the node does with a received DID-document transaction: the DAG's signature verifier, then the callback -/
 def deliver (c : Cfg) (s : Store) (tx : Tx) (pd : Option NDoc) : Res Store :=
-  match verifySig c.maxDepth s tx with
+  match verifySig s tx with
   | .ok () => callback c s tx pd
   | .err e => .err e
   | .panic x => .panic x
